@@ -15,7 +15,7 @@ for name in sorted(cur):
     caught = [c for c, rc in res if rc == "1"]
     quiet = [c for c, rc in res if rc == "0"]
     rows.append("| %s | %s | %s%s |" % (name, ", ".join(c for c, _ in res),
-                "caught by " + ", ".join(caught) if caught else ("not detectable: equivalent under the listed properties (only straddle pairs move; 9.3)" if name.startswith("m06") else "**missed**"),
+                "caught by " + ", ".join(caught) if caught else ("not detectable: equivalent under the listed properties (only straddle pairs move; 9.3)" if name.startswith("m06") else ("not detectable on the repaired tree: a deeper recursion of the now sound estimate is still a valid lower bound (it was caught through the per-input baseline before F8)" if name.startswith("m33") else "**missed**")),
                 (" (quiet: %s)" % ", ".join(quiet)) if quiet and caught else ""))
 d = re.sub(r"<!-- MUTANT-TABLE-BEGIN -->.*?<!-- MUTANT-TABLE-END -->",
            "<!-- MUTANT-TABLE-BEGIN -->\n" + "\n".join(rows) + "\n<!-- MUTANT-TABLE-END -->", d, flags=re.S)
